@@ -154,6 +154,25 @@ def main(tier, seed, replay=None):
             stats["pickle_histories"] += n
         # ---------- (3) solvers into a fresh process ----------
         if not fail:
+            # targeted (found by the thorough tier): a composite whose simplification after loading splits off a part `x == c`
+            tu = solverhist.Universe(claripy, drv, tag="xpt_")
+            for cons in ([claripy.SMod(tu.x, tu.y) == 14, tu.x * tu.y == 2], [tu.x + tu.y == 9, tu.x ^ tu.y == 15], [tu.x - tu.y == 3, tu.x * tu.y == 10]):
+                s = claripy.SolverComposite()
+                try:
+                    for c_ in cons:
+                        s.add(c_)
+                        s.eval(rng.choice([tu.x, tu.y]), 3)
+                except claripy.errors.ClaripyError:
+                    continue
+                names = [tu.x.args[0], tu.y.args[0], tu.z.args[0]]
+                st, got = child("solver", (s, names), 5)
+                mine = json.loads(json.dumps(c18ann.battery(s, names)))
+                stats["solver_crossprocess"] += 1
+                if st != "ok" or got != mine:
+                    bad("a solver unpickled in a fresh process answers differently", solver="SolverComposite",
+                        constraints=[str(c) for c in s.constraints], original=str(mine), loaded=str(got))
+                    break
+        if not fail:
             for it in range(6 if tier == "quick" else 120):
                 uu = solverhist.Universe(claripy, drv, tag="xp%d_" % it)
                 forms = solverhist.constraint_pool(uu, rng)
